@@ -296,6 +296,23 @@ def gen_bool_expr(c: Ctx, vars_, depth):
     k = c.i(0, 2)
     if k == 0:
         return ["not", gen_bool_expr(c, vars_, depth - 1)]
+    if vars_ and c.p(0.2):
+        # a WIDE connective (5-9 operands) decided by exactly one operand at a drawn position: the others
+        # are comparisons that hold (And) / fail (Or) at every point the generators draw (|values| << 1e4)
+        n = c.pick([5, 6, 6, 7, 7, 8, 9])
+        pos = c.i(0, n - 1)
+        ops = []
+        for i in range(n):
+            if i == pos:
+                ops.append(gen_rel(c, vars_, 1))
+                continue
+            v = ["var", c.pick(vars_)]
+            lit = ["num", c.pick(["1e4", "20000", "1e5", "30000.5"])]
+            if k == 1:
+                ops.append(c.pick([["rel", "Gt", v, ["neg", lit]], ["rel", "Lt", v, lit], ["rel", "Le", ["neg", lit], v], ["rel", "Ge", lit, v]]))
+            else:
+                ops.append(c.pick([["rel", "Lt", v, ["neg", lit]], ["rel", "Gt", v, lit], ["rel", "Ge", ["neg", lit], v], ["rel", "Le", lit, v]]))
+        return ["and" if k == 1 else "or"] + ops
     n = c.pick([2, 2, 3, 3, 4])
     return ["and" if k == 1 else "or"] + [gen_bool_expr(c, vars_, depth - 1) for _ in range(n)]
 
